@@ -183,12 +183,35 @@ func (m *model) resolve(p string) (*node, string, string) {
 	}
 }
 
+// risky reports whether opening p could recurse without bound: its link chain loops, or would loop if an absolute target
+// were (wrongly) joined onto the link's directory the way filepath.Join does. Such names are only opened in the worker
+// subprocess, so that a missing guard kills the worker and not the harness.
+func (m *model) risky(p string) bool {
+	if _, _, st := m.resolve(p); st == stLoop {
+		return true
+	}
+	visited := map[string]bool{}
+	for {
+		n := m.nodes[p]
+		if n == nil || n.Kind != "symlink" {
+			return false
+		}
+		if visited[p] {
+			return true
+		}
+		visited[p] = true
+		np, st := m.walkFrom(path.Dir(p), strings.TrimLeft(n.Target, "/"))
+		if st != stOK {
+			return false
+		}
+		p = np
+	}
+}
+
 func (m *model) hasLoop() bool {
 	for p, n := range m.nodes {
-		if n.Kind == "symlink" {
-			if _, _, st := m.resolve(p); st == stLoop {
-				return true
-			}
+		if n.Kind == "symlink" && m.risky(p) {
+			return true
 		}
 	}
 	return false
@@ -233,6 +256,12 @@ func (c *checker) guard(op string, f func()) {
 			if i := strings.Index(msg, "0x"); i >= 0 {
 				msg = msg[:i]
 			}
+			msg = strings.Map(func(r rune) rune {
+				if r >= '0' && r <= '9' {
+					return 'N' // no indexes or lengths in a class
+				}
+				return r
+			}, msg)
 			c.fail("panic:"+op+":"+strings.TrimSpace(msg), "%s panicked: %v", op, r)
 		}
 	}()
@@ -331,7 +360,7 @@ func (c *checker) run(openLoops bool) {
 			}
 		})
 		// 3. Open
-		if st == stLoop && !openLoops {
+		if !openLoops && m.risky(p) {
 			continue
 		}
 		c.guard("Open", func() {
@@ -475,6 +504,12 @@ func (c *checker) run(openLoops bool) {
 			if _, err := fsys.Stat(q); err == nil {
 				c.fail("Stat:missing-path:no-error", "Stat(%s) succeeds", q)
 			}
+			if p != "." && m.nodes[p+"x"] == nil {
+				if f, err := fsys.Open(p + "x"); err == nil {
+					f.Close()
+					c.fail("Open:missing-path:no-error", "Open(%s) succeeds", p+"x")
+				}
+			}
 		})
 	}
 	// 6. the real conformance suite, only when it can terminate and every link resolves (it opens every listed name)
@@ -570,16 +605,17 @@ func leavesWD(w witness, wd string) bool {
 
 // ---- enumeration --------------------------------------------------------------------------------------------------
 
-var names = []string{"a", "b", "c", "d", "e"}
+// the second name has the first as a proper prefix, so that prefix-matching lookups are told apart from exact ones
+var names = []string{"a", "ab", "c", "d", "e"}
 
 type alphabet struct {
 	targets  []string
 	contents []string
 }
 
-var fullAlpha = alphabet{[]string{"a", "b", "a/a", "../a", "..", ".", "/a", "zz", "c"}, []string{"hi", ""}}
-var midAlpha = alphabet{[]string{"a", "b", "a/a", "../a", "..", "/a", "zz"}, []string{"hi"}}
-var smallAlpha = alphabet{[]string{"a", "b", "../a", "/a"}, []string{"hi"}}
+var fullAlpha = alphabet{[]string{"a", "ab", "a/a", "../a", "..", ".", "/a", "zz", "c"}, []string{"hi", ""}}
+var midAlpha = alphabet{[]string{"a", "ab", "a/a", "../a", "..", "/a", "zz"}, []string{"hi"}}
+var smallAlpha = alphabet{[]string{"a", "ab", "../a", "/a"}, []string{"hi"}}
 
 // gen enumerates every children list using exactly `budget` nodes in total with directories nested at most `depth` deep.
 func gen(budget, depth int, al alphabet, f func([]node)) {
@@ -944,7 +980,7 @@ func main() {
 	r.Finish(lib.Coverage{
 		Evaluations:        int(evals),
 		DistinctNontrivial: int(nontrivial),
-		Rule:               "every Tree with exactly n nodes for n=0..3 (thorough 0..4) over files (2 contents), symlinks (9 targets: sibling names, a/a, ../a, .., ., /a, dangling zz) and directories nested to depth 2 (empty ones included), names assigned a,b,c.. by position; plus n=4 (thorough also n=5) over the reduced alphabet (1 content, targets a, b, ../a, /a); thorough also n=5 over 1 content x 7 targets, and views rooted at a working directory; non-trivial = the tree has a symlink or a subdirectory",
+		Rule:               "every Tree with exactly n nodes for n=0..3 (thorough 0..4) over files (2 contents), symlinks (9 targets: sibling names, a/a, ../a, .., ., /a, dangling zz) and directories nested to depth 2 (empty ones included), names assigned a,ab,c,d,e by position; plus n=4 (thorough also n=5) over the reduced alphabet (1 content, targets a, ab, ../a, /a); thorough also n=5 over 1 content x 7 targets, and views rooted at a working directory; non-trivial = the tree has a symlink or a subdirectory",
 		Samples:            samples.List(),
 		Exhaustive:         !r.Capped,
 		Extra: map[string]any{"trees_with_symlink_loop": loopTrees, "loop_trees_opened_in_subprocess": loopProbed,
